@@ -27,7 +27,8 @@ RULE = ("two point sets: set 1 = 1..8 explicit points (uniform, poles, seam, spe
         "second depth, Matcher.match (whole and split queries on one object), file= + read_pairs. Non-trivial: "
         ">= 1 required non-self pair and >= 1 near miss (sep in (r+1e-9, 3r]); or a required non-self pair across "
         "the ra seam / with a pole inside the search circle; or a positive limit smaller than a group. "
-        "Distinct = distinct case JSON.")
+        "Distinct = distinct case JSON."
+        " The matcher sub-check also widens a cone search step by step around one position on the same Matcher object.")
 ASSUMPTIONS = [
     "longitudes in [0,360], latitudes in [-90,90], finite; radii in {0} u [1e-6, 180] degrees",
     "pairs with |sep - radius| <= 1e-9 deg are unconstrained (statement); reported separations are compared "
